@@ -89,11 +89,16 @@ Theorem C01_between : forall bl s l x a b, beval clean bl s l (BBetween x a b) =
   Z.min (fst (neval bl s l a)) (fst (neval bl s l b)) < fst (neval bl s l x) < Z.max (fst (neval bl s l a)) (fst (neval bl s l b)).
 Proof. exact between_meaning. Qed.
 Print Assumptions C01_between.
+Theorem C01_missing_cell : forall bl s l o i e, cell l i = None -> is_vnone (nvalue bl s l e) = false ->
+  beval clean bl s l (BCmp o (NHdr i) e) = false /\ beval clean bl s l (BCmp o e (NHdr i)) = false.
+Proof. exact missing_cell_compares_false. Qed.
+Print Assumptions C01_missing_cell.
 Theorem C01_all_cells : forall q bl s l nh, beval q bl s l (BAllCells nh) = true <->
   length l = nh /\ Forall (fun t => strip t <> []) l.
 Proof. exact all_cells_meaning. Qed.
 Print Assumptions C01_all_cells.
 Theorem C01_numeric_cells : forall bl s l o i j,
+  cell l i <> None -> cell l j <> None ->
   beval clean bl s l (BCmp o (NHdr i) (NHdr j)) = cmp_num clean o (fst (neval bl s l (NHdr i))) (fst (neval bl s l (NHdr j))).
 Proof. exact numeric_cells_compare_as_numbers. Qed.
 Print Assumptions C01_numeric_cells.
